@@ -611,8 +611,9 @@ theorem C12_no_crash (op : Op) (l r : CV) (hl : sizesPositive l) (hr : sizesPosi
             · simp [hc, hsft, ha]
 
 -- non-vacuity: every constant the generator writes has positive sizes, e.g. uint128(5) and int8(-43)
-example : ∃ t v, typedConst .uint 128 5 .pos = .ok (.int t v) ∧ sizesPositive (.int t v) := by
-  refine ⟨_, _, by decide +kernel, ?_⟩; simp [sizesPositive]
+example : typedConst .uint 128 5 .pos = .ok (.int ⟨.uint, 128, 3⟩ { bits := 32, i64 := 5#64 }) ∧
+    sizesPositive (.int ⟨.uint, 128, 3⟩ { bits := 32, i64 := 5#64 }) := by
+  refine ⟨by decide +kernel, ?_⟩; simp [sizesPositive]
 
 /-- The large-path adder / subtractor as it was before repo d31d09e: operands at their own widths; result
 wires above `max(x.bits, y.bits) + 1` were replaced by the zero wire although they are declared outputs, and
